@@ -4,6 +4,28 @@ use gosyn::token::{Keyword, LitKind, Operator, Token};
 use std::io::Write;
 use std::str::FromStr;
 
+#[cfg(gosyn_verif)]
+mod hooks {
+    pub use gosyn::verif::{char_class, tokens};
+}
+/// built with the hooks off (C20 compares such a build with the hooks-on build): the
+/// scanner-level modes are not available
+#[cfg(not(gosyn_verif))]
+mod hooks {
+    pub struct Scanned {
+        pub tokens: Vec<(usize, gosyn::token::Token)>,
+        pub error: Option<anyhow::Error>,
+        pub lines: Vec<usize>,
+        pub end: usize,
+    }
+    pub fn tokens(_: &str) -> Scanned {
+        panic!("harness built without --cfg gosyn_verif")
+    }
+    pub fn char_class(_: char) -> u32 {
+        panic!("harness built without --cfg gosyn_verif")
+    }
+}
+
 pub const OPERATORS: &[(&str, Operator)] = &[
     ("Add", Operator::Add), ("Sub", Operator::Sub), ("Star", Operator::Star), ("Quo", Operator::Quo),
     ("Rem", Operator::Rem), ("And", Operator::And), ("Or", Operator::Or), ("Xor", Operator::Xor),
@@ -102,7 +124,7 @@ pub fn err_loc(e: &anyhow::Error) -> String {
 
 /// "tok tok ... | EOF end=<pos> | l1 l2 ..."  or  "... | ERR <line> <col> | l1 ..."
 pub fn token_line(src: &str) -> String {
-    let sc = gosyn::verif::tokens(src);
+    let sc = hooks::tokens(src);
     let toks: Vec<String> = sc.tokens.iter().map(|(p, t)| render_tok(*p, t)).collect();
     let lines: Vec<String> = sc.lines.iter().map(|l| l.to_string()).collect();
     let tail = match &sc.error {
@@ -119,7 +141,7 @@ pub fn print_classes<W: Write>(out: &mut W) {
     let mut prev_cp = 0u32;
     for cp in 0..=0x10FFFFu32 {
         let m = match char::from_u32(cp) {
-            Some(c) => gosyn::verif::char_class(c),
+            Some(c) => hooks::char_class(c),
             None => u32::MAX, // surrogates: not a char
         };
         match cur {
@@ -169,7 +191,7 @@ pub fn print_tables<W: Write>(out: &mut W) {
     // semicolon trigger table by behaviour: scan "<tok>\nx" and look for a ';' right after <tok>
     let mut probe = |label: String, text: &str| {
         let src = format!("{}\nx", text);
-        let sc = gosyn::verif::tokens(&src);
+        let sc = hooks::tokens(&src);
         let trig = sc.tokens.len() >= 2
             && matches!(sc.tokens[1].1, Token::Operator(Operator::SemiColon));
         writeln!(out, "trigger {} {}", label, trig as u8).unwrap();
